@@ -106,9 +106,15 @@ func c14sGen(rnd *vRand, n int) []c14sCase {
 	ps2, _ := proto.MarshalPartitionStatusRequest(&proto.PartitionStatusRequest{Stream: "nope", Partition: 9})
 	pn, _ := proto.MarshalPartitionNotification(&proto.PartitionNotification{Stream: "c14s", Partition: 0})
 	pn2, _ := proto.MarshalPartitionNotification(&proto.PartitionNotification{Stream: "nope", Partition: 3})
+	// an EXISTING stream with partition ids it does not have (the look-ups behind these handlers go stream first, partition second)
+	ps3, _ := proto.MarshalPartitionStatusRequest(&proto.PartitionStatusRequest{Stream: "c14s", Partition: 7})
+	ps4, _ := proto.MarshalPartitionStatusRequest(&proto.PartitionStatusRequest{Stream: "c14s", Partition: -1})
+	pn3, _ := proto.MarshalPartitionNotification(&proto.PartitionNotification{Stream: "c14s", Partition: 7})
+	pn4, _ := proto.MarshalPartitionNotification(&proto.PartitionNotification{Stream: "c14s", Partition: -1})
+	pn5, _ := proto.MarshalPartitionNotification(&proto.PartitionNotification{Stream: "c14w", Partition: 1 << 30})
 	pr, _ := proto.MarshalPropagatedRequest(&proto.PropagatedRequest{Op: proto.Op_CREATE_STREAM})
 	pr2, _ := proto.MarshalPropagatedRequest(&proto.PropagatedRequest{Op: proto.Op(77)})
-	valid := map[string][][]byte{"replicate": {rr, rr2}, "offset": {lo}, "serverinfo": {si}, "status": {ps, ps2}, "notify": {pn, pn2}, "propagate": {pr, pr2}}
+	valid := map[string][][]byte{"replicate": {rr, rr2}, "offset": {lo}, "serverinfo": {si}, "status": {ps, ps2, ps3, ps4}, "notify": {pn, pn2, pn3, pn4, pn5}, "propagate": {pr, pr2}}
 	kinds := []string{"replicate", "offset", "serverinfo", "status", "notify", "propagate"}
 	for _, k := range kinds {
 		for _, v := range valid[k] {
